@@ -1697,6 +1697,109 @@ def check_C14(tier, seed):
     return out
 
 
+# ======================================================================================= C15
+def check_C15(tier, seed):
+    out = Outcome()
+    rng = random.Random(seed)
+    cat = {g.name: g for g in catalogue()}
+    work = vlib.scratch('C15')
+    # ---- (A) the interleaving argument, stated and model-checked
+    cfg = os.path.join(work, 'conc.cfg')
+    with open(cfg, 'w') as f:
+        f.write('SPECIFICATION Spec\nCONSTANTS\n  Threads = {1, 2%s}\n  Syms = {10, 11}\n  K = 3\n  MaxLen = 2\n  Calls = %d\nINVARIANT Isolated\nPROPERTY Immutable\nCHECK_DEADLOCK FALSE\n'
+                % ('' if tier == 'quick' else ', 3', 2 if tier == 'quick' else 1))
+    rc = vlib.run_tlc('Concurrent', cfg, {}, 'C15_conc', workers=8, timeout=1500)
+    if rc.exit != 0 or rc.errors:
+        raise Infra('Concurrent.tla fails its own properties (spec bug): %s' % rc.errors[:3])
+    # ---- (B) binding: T threads on one real parser object; byte image; per-thread traces validated sequentially
+    names = ['left_rec', 'paren_list', 'expr_strat', 'expr_amb', 'err_suite', 'err_stmt', 'nullable_prefix']
+    if tier != 'quick':
+        names += ['closure_memo', 'lr1_not_lalr', 'two_lists', 'err_block', 'dangling_else', 'unit_chain']
+    T = 4 if tier == 'quick' else 8
+    hosts = pipeline.host_bins()
+    tsan = vlib.build_binary('host0_tsan', 'host.cpp', ('-DHOST_VARIANT=0', '-fsanitize=thread', '-g'), cxx='clang++')
+    tsan1 = vlib.build_binary('host1_tsan', 'host.cpp', ('-DHOST_VARIANT=1', '-fsanitize=thread', '-g'), cxx='clang++')
+    entries = []
+    for n in names:
+        g = cat[n]
+        e = pipeline.host_entry(g, 1 if g.has_error() else 0, gid=n + '@thr')
+        ins = ws_inputs(g, 4 if len(g.ts) <= 2 else 3, [ord('?'), 32], 120 if tier == 'quick' else 500)      # accepted, failing, recovering calls mixed
+        for s in gengram.sentences(g, rng, 6, max_len=40):
+            ins.append(s)
+        rng.shuffle(ins)
+        pipeline.add_jobs(e, ins, verbose=False)
+        pipeline.add_jobs(e, ins[::4], verbose=True, tag='v')
+        entries.append(e)
+    nthr_traces = 0
+    images = []
+    for variant, plain, sanit in ((0, hosts['host0'], tsan), (1, hosts['host1'], tsan1)):
+        es = [e for e in entries if e.mode == 'host%d' % variant]
+        if not es:
+            continue
+        for label, binp in (('plain', plain), ('tsan', sanit)):
+            recs_all = vlib.scratch('C15run')
+            base = os.path.join(recs_all, 'x')
+            with open(base + '.desc', 'w') as f:
+                for e in es:
+                    f.write(e.desc)
+            pipeline._write_jobs(base + '.jobs', es)
+            env = dict(os.environ); env['VERIF_THREADS'] = str(T); env['TSAN_OPTIONS'] = 'halt_on_error=0:report_signal_unsafe=0'
+            r = subprocess.run([binp, base + '.desc', base + '.jobs', base + '.out'], capture_output=True, text=True, timeout=1500, env=env)
+            if r.returncode != 0 or 'ThreadSanitizer' in r.stderr:
+                out.violations.append({'summary': {'class': '%s build, %d threads on one parser object: %s' % (label, T, 'data race reported by ThreadSanitizer' if 'ThreadSanitizer' in r.stderr else 'process ended with exit %s' % r.returncode),
+                                                   'grammars': [e.gid for e in es], 'report': r.stderr[:1200]}, 'kind': 'threads'})
+            for rec in vlib.read_ndjson_lenient(base + '.out'):
+                if 'image' in rec:
+                    images.append(rec)
+                    if rec['changed']:
+                        out.violations.append({'summary': {'class': 'the parser object was modified by parse calls', 'grammar': rec['image'], 'bytes_changed': rec['changed'], 'object_size': rec['bytes'], 'build': label}, 'kind': 'threads'})
+                elif 'dump' in rec:
+                    [e for e in es if e.gid == rec['dump']['g']][0].dump = rec['dump']
+                elif 'id' in rec and label == 'plain':
+                    [e for e in es if e.gid == rec['g']][0].traces.append(rec)
+                    nthr_traces += 1
+    # every per-thread trace must be a behaviour of the SEQUENTIAL specification, with the verdict/tree of the isolated call
+    live = [e for e in entries if e.dump is not None and e.traces]
+    tasks = []
+    for ci, part in enumerate(pipeline.chunks(live, 4 if tier == 'quick' else 8)):
+        env, ntr = pipeline.tlc_inputs(part, work, 'thr%d' % ci, with_traces=True)
+        cfg2 = pipeline.write_cfg(work, 'thr%d' % ci, 'Spec', ['RejectionsReported', 'Progress', 'Safe'])
+        tasks.append((part, (lambda env=env, cfg2=cfg2, ci=ci: vlib.run_tlc('TraceDriver', cfg2, env, 'C15_thr%d' % ci, workers=4, timeout=1500))))
+    outs = vlib.run_parallel([t[1] for t in tasks])
+    st, tr = rc.distinct, rc.generated
+    class R: pass
+    res = R(); res.rejects = collections.defaultdict(list); res.crashed = []
+    for (part, _), r in zip(tasks, outs):
+        if r.exit != 0 or r.errors:
+            raise Infra('TraceDriver failed: %s\n%s' % (r.errors[:3], r.out[-2000:]))
+        st += r.distinct; tr += r.generated
+        tr_by_id = {t['id']: t for e in part for t in e.traces}
+        for d in r.lines.get('REJECT', []):
+            d['trace'] = tr_by_id.get(d['id'])
+            res.rejects[d['g']].append(d)
+    judge_traces(out, entries, res, {'table', 'step', 'functor', 'report', 'position', 'verdict', 'tree', 'extra', 'recovery', 'threw', 'partial-line', 'oob'}, None)
+    # the same call from different threads / at different points of the history gives the same result
+    ncmp = 0
+    for e in entries:
+        byjob = collections.defaultdict(list)
+        for t in e.traces:
+            byjob[t['id'].split('#')[0]].append(t)
+        for jid, ts in byjob.items():
+            for t in ts[1:]:
+                ncmp += 1
+                if t['ok'] != ts[0]['ok'] or json.dumps(t['tree']) != json.dumps(ts[0]['tree']):
+                    out.violations.append({'summary': {'class': 'the same call gave different results in different threads', 'grammar': e.gid, 'input': bytes(t['bytes']).decode('latin-1')}, 'kind': 'threads'})
+    out.violations = out.violations[:12]
+    out.coverage = {'states': int(st), 'transitions': int(max(tr, 1)), 'traces_validated_against_impl': nthr_traces,
+                    'interleaving_model': {'module': 'Concurrent.tla', 'threads': 2 if tier == 'quick' else 3, 'distinct_states': rc.distinct},
+                    'threads_per_object': T, 'parser_objects': len(entries), 'byte_images_compared': len(images), 'object_bytes': images[0]['bytes'] if images else 0,
+                    'cross_thread_result_comparisons': ncmp, 'sanitizer': 'clang++ -fsanitize=thread (parse, context-free of shared writes; write_diag_str running concurrently)',
+                    'samples': [{'grammar': e.gid, 'thread_trace_ids': [t['id'] for t in e.traces[:3]]} for e in entries[:2]], 'exhaustive': False}
+    out.assumptions = ['dynamic race detection sees the schedules that occurred; the interleaving argument is the specification\'s (Concurrent.tla), its premise (no write to the object or to library globals during a call) is what is observed',
+                       'byte image of the parser object compared before and after all calls of all threads', 'each thread\'s trace is validated against the sequential Driver.tla independently (thread-local logs, no cross-thread ordering assumed)']
+    return out
+
+
 # ======================================================================================= replay
 def replay(pid, path):
     v = json.load(open(path))
@@ -1709,6 +1812,10 @@ def replay(pid, path):
         print('library accepts:', recs[0] and recs[0]['valid'], ' ref mismatches:', len(ref.get('p0', [])), ' model mismatches:', len(model.get('p0', [])), ' syntax:', [d['why'] for d in probs])
         if crashed or ref or model or static or probs:
             out.violations.append(v)
+        return out
+    if v.get('kind') == 'threads':
+        print('thread-level witnesses depend on the schedule: re-run ./check C15')
+        out.violations.append(v)
         return out
     if v.get('kind') == 'moveonly':
         print('re-run ./check C14 (compiles harness/moveonly.cpp against the working tree)')
